@@ -174,13 +174,8 @@ int KSI_FTLV_memRead(const unsigned char *m, size_t l, KSI_FTLV *t) {
 	/* Initialize offset. */
 	t->off = 0;
 
-	if (m[0] & KSI_TLV_MASK_TLV16) {
-		res = parseHdr(m, l, t);
-		if (res != KSI_OK) goto cleanup;
-	} else {
-		res = parseHdr(m, l, t);
-		if (res != KSI_OK) goto cleanup;
-	}
+	res = parseHdr(m, l, t);
+	if (res != KSI_OK) goto cleanup;
 
 	if (l < t->hdr_len + t->dat_len) {
 		res = KSI_INVALID_FORMAT;
